@@ -193,6 +193,9 @@ class ArchiveFileCrc32(Contract):
         return [bound["self_"]], {}
 
     def requires(self, c, self_, _info):
+        if getattr(c, "concrete", False):
+            d = _info.get("digest", 0)
+            return [("digest-is-a-crc32", 0 <= d < (1 << 32))]
         return [("digest-is-a-crc32", And(c.dict_items(_info)["digest"] >= 0, c.dict_items(_info)["digest"] < (1 << 32)))]
 
     def ensures(self, c, old, result, self_, _info):
